@@ -39,6 +39,7 @@ type stats struct {
 	byFin                            [nFin]int64
 	tagged                           int64
 	nested                           int64
+	byShape                          [nVariants]int64
 }
 
 type sinks struct {
@@ -226,9 +227,14 @@ func check(s *sinks, w *worker, c Case) {
 		s.run.Violation(useTags, kind+"\n"+c.String()+"\n"+detail, c)
 	}
 
+	sv := vSoft
+	if c.Shape != 0 {
+		sv = c.Shape
+		atomic.AddInt64(&s.st.byShape[c.Shape], 1)
+	}
 	// pair: the soft-delete model against its twin
 	pair := func(unscoped bool, twin int, rows []cg.Row, what string) (soft obs, ok bool) {
-		soft = w.execOne(c, vSoft, unscoped)
+		soft = w.execOne(c, sv, unscoped)
 		tw := w.execOne(c, twin, unscoped)
 		atomic.AddInt64(&s.st.execs, 2)
 		if soft.panicMsg != "" {
@@ -262,7 +268,7 @@ func check(s *sinks, w *worker, c Case) {
 					}
 				}
 			}
-			fail(kind, "soft model ("+vTable[vSoft]+"): "+describe(soft)+"\ntwin ("+vTable[twin]+"): "+describe(tw))
+			fail(kind, "soft model ("+vTable[sv]+"): "+describe(soft)+"\ntwin ("+vTable[twin]+"): "+describe(tw))
 			return soft, false
 		}
 		if defined && fins[f].ref != "none" && soft.err != "error" && !(noCond && fins[f].write) {
@@ -374,6 +380,21 @@ func enumerate(tier string, emit func(Case) bool) bool {
 			}
 		})
 	}
+	// S: the other shapes of the soft-delete model: chains of 0..1 calls x every
+	// finisher (quick: over the Rep>=1 units, thorough: over all units)
+	setS := rep2
+	if thorough {
+		setS = full
+	}
+	for _, shape := range []int{vSoftPtr, vSoftEmb, vSoftPre, vSoftCol} {
+		for n := 0; n <= 1 && ok; n++ {
+			chains(setS, n, func(ch []cg.Call) {
+				for _, f := range allFins {
+					out(Case{Chain: ch, Inline: -1, Fin: fins[f].name, Shape: shape})
+				}
+			})
+		}
+	}
 	// D: PropagateUnscoped on: chains of 0..1 calls over the representatives x
 	// every finisher, and the nested-handle probe with both config values
 	setD := rep1
@@ -455,6 +476,10 @@ func main() {
 	run := mc.NewRun("C08", args.Tier, "exploration")
 	units[vSoft] = cg.Catalogue(cg.Options{ModelName: "Soft", ModelStruct: func(a, b *int, s *string) interface{} { return &Soft{A: a, B: b, S: s} }})
 	units[vPlain] = cg.Catalogue(cg.Options{ModelName: "Plain", ModelStruct: func(a, b *int, s *string) interface{} { return &Plain{A: a, B: b, S: s} }})
+	units[vSoftPtr] = cg.Catalogue(cg.Options{ModelName: "SoftPtr", ModelStruct: func(a, b *int, s *string) interface{} { return &SoftPtr{A: a, B: b, S: s} }})
+	units[vSoftEmb] = cg.Catalogue(cg.Options{ModelName: "SoftEmb", ModelStruct: func(a, b *int, s *string) interface{} { return &SoftEmb{A: a, B: b, S: s} }})
+	units[vSoftPre] = cg.Catalogue(cg.Options{ModelName: "SoftPre", ModelStruct: func(a, b *int, s *string) interface{} { return &SoftPre{A: a, B: b, S: s} }})
+	units[vSoftCol] = cg.Catalogue(cg.Options{ModelName: "SoftCol", ModelStruct: func(a, b *int, s *string) interface{} { return &SoftCol{A: a, B: b, S: s} }})
 	units[vPlainAll] = cg.Catalogue(cg.Options{ModelName: "PlainAll", ModelStruct: func(a, b *int, s *string) interface{} { return &PlainAll{A: a, B: b, S: s} }})
 
 	s := &sinks{run: run, st: &stats{}, nontriv: &mc.Set{}, outcomes: &mc.Set{}, samples: &mc.Samples{N: 8}}
@@ -536,6 +561,11 @@ func main() {
 				run.HarnessError("vacuous: finisher %s executed only %d cases", f.name, st.byFin[i])
 			}
 		}
+		for _, shape := range []int{vSoftPtr, vSoftEmb, vSoftPre, vSoftCol} {
+			if st.byShape[shape] < 1000 {
+				run.HarnessError("vacuous: model shape %s executed only %d cases", vName[shape], st.byShape[shape])
+			}
+		}
 		if msg := nestedVacuity(ns); msg != "" {
 			run.HarnessError("vacuous (nested relations): %s", msg)
 		}
@@ -553,7 +583,7 @@ func main() {
 	run.Finish(map[string]interface{}{
 		"evaluations":                          st.execs,
 		"distinct_nontrivial":                  s.nontriv.Len(),
-		"rule":                                 fmt.Sprintf("unit catalogue of %d units (verif/condgram); every chain of 0-1 Where/Or/Not calls (leading Or included) over all units x 22 finishers; chains of 2 calls over the class representatives (quick Rep=1, thorough Rep>=1) x 22 finishers, thorough also one call over all units + one over the representatives x Find/Count/Update/Delete; inline conditions; PropagateUnscoped on and the Unscoped+NewDB nested-handle probe; chains of 3 calls over 5 shapes (quick) / the class representatives (thorough) x Find/Count/Update/Delete. Plus nested relation paths of depth 2-3 over {soft,plain}^depth from a soft or plain root (single nested Joins entry, step-wise, InnerJoins, ON conditions, conditions on the joined aliases, nested Preload with/without conditions, Joins+Preload) x Find/Count/First, with soft-deleted rows at every level, each compared with the same path over plain twin tables. Each case runs scoped on softs vs plains (live rows only) and Unscoped on softs vs plain_alls (all rows); evaluations = executions. Non-trivial = the scoped and the Unscoped observation of the case differ, i.e. a soft-deleted twin satisfies the condition and a leak would be visible; distinct by (chain, inline, finisher, config)", len(units[vSoft])),
+		"rule":                                 fmt.Sprintf("unit catalogue of %d units (verif/condgram); every chain of 0-1 Where/Or/Not calls (leading Or included) over all units x 22 finishers; chains of 2 calls over the class representatives (quick Rep=1, thorough Rep>=1) x 22 finishers, thorough also one call over all units + one over the representatives x Find/Count/Update/Delete; inline conditions; PropagateUnscoped on and the Unscoped+NewDB nested-handle probe; chains of 0-1 calls x 22 finishers on four more shapes of the soft-delete model (pointer field, field promoted from an embedded struct, embedded struct with column prefix, renamed column); chains of 3 calls over 5 shapes (quick) / the class representatives (thorough) x Find/Count/Update/Delete. Plus nested relation paths of depth 2-3 over {soft,plain}^depth from a soft or plain root (single nested Joins entry, step-wise, InnerJoins, ON conditions, conditions on the joined aliases, nested Preload with/without conditions, Joins+Preload) x Find/Count/First, with soft-deleted rows at every level, each compared with the same path over plain twin tables. Each case runs scoped on softs vs plains (live rows only) and Unscoped on softs vs plain_alls (all rows); evaluations = executions. Non-trivial = the scoped and the Unscoped observation of the case differ, i.e. a soft-deleted twin satisfies the condition and a leak would be visible; distinct by (chain, inline, finisher, config)", len(units[vSoft])),
 		"samples":                              s.samples.List(),
 		"exhaustive":                           complete && hs.Complete,
 		"cases":                                st.cases,
@@ -572,6 +602,7 @@ func main() {
 		"states":                               hs.States,
 		"transitions":                          hs.Transitions,
 		"traces_validated_against_impl":        hs.Transitions + hs.Steps,
+		"cases_by_model_shape":                 map[string]int64{"SoftPtr": st.byShape[vSoftPtr], "SoftEmb": st.byShape[vSoftEmb], "SoftPre": st.byShape[vSoftPre], "SoftCol": st.byShape[vSoftCol]},
 		"nested_cases":                         ns.Cases,
 		"nested_executions":                    ns.Execs,
 		"nested_invalid_for_both":              ns.InvalidBoth,
@@ -638,9 +669,13 @@ func replay(args mc.Args, s *sinks) {
 	w := newWorker()
 	fmt.Printf("case: %s\n", c.String())
 	if !c.Nested {
-		fmt.Printf("scoped   softs     : %s\n", describe(w.execOne(c, vSoft, false)))
+		sv := vSoft
+		if c.Shape != 0 {
+			sv = c.Shape
+		}
+		fmt.Printf("scoped   %-10s: %s\n", vTable[sv], describe(w.execOne(c, sv, false)))
 		fmt.Printf("scoped   plains    : %s\n", describe(w.execOne(c, vPlain, false)))
-		fmt.Printf("unscoped softs     : %s\n", describe(w.execOne(c, vSoft, true)))
+		fmt.Printf("unscoped %-10s: %s\n", vTable[sv], describe(w.execOne(c, sv, true)))
 		fmt.Printf("unscoped plain_alls: %s\n", describe(w.execOne(c, vPlainAll, true)))
 	}
 	os.Setenv("VERIF_KNOWN_FINDINGS", "/nonexistent")
